@@ -19,4 +19,5 @@ def main (args : List String) : IO UInt32 := do
   | ["stream"] => Driver.runLines Driver.Stream.runCase; return 0
   | ["stateobj"] => Driver.runLines Driver.StateObj.runCase; return 0
   | ["missing"] => Driver.runLines Driver.Missing.runCase; return 0
+  | ["wrap"] => Driver.runLines Driver.Wrap.runCase; return 0
   | _ => IO.eprintln "usage: hwmodel <component>"; return 2
